@@ -176,6 +176,17 @@ EXTRA7 = {
     "C19": "A session of 140 (thorough 400) snapshots logged through the shell's own logfile command (exposed D23, fixed).",
     "C20": "Spas that name tables which are not shipped: no exception leaves the engine's loop.",
 }
+EXTRA9 = {
+    "C02": "Write permission is treated as state: items are also written after their permission was granted and after it was revoked.",
+    "C03": "An exception out of the library's own update is a verdict (update-raised).",
+    "C11": "Every facade is evaluated a second time after its live block has been updated (unit switch, all bytes, seeded patch).",
+    "C12": "The blocking facade is also built under the two earliest schedules of its engine and client threads (EagerSpa).",
+    "C14": "The operation ladder runs with the other bits of the flags' bytes clear, set and seeded; flags are recorded as written by the harness.",
+    "C16": "Status requests whose answers are lost are re-sent with the same number in the threaded wire session.",
+    "C19": "Single-snapshot files are also loaded, the simulator's block changed, and loaded again.",
+}
+for _k, _v in EXTRA9.items():
+    EXTRA[_k] = (EXTRA.get(_k, "") + " " + _v).strip()
 for _k, _v in EXTRA7.items():
     EXTRA[_k] = (EXTRA.get(_k, "") + " " + _v).strip()
 for _k, _v in EXTRA6.items():
